@@ -481,6 +481,11 @@ def run(ctx):
     from ..rules import widen
     widen.check(ctx, sorted(set(P.rel(f.file) for f in P.funcs_under("src/reader/"))) + ["src/metadata/schema.c", "src/metadata/page_index.c", "src/metadata/bloom_filter.c"])
 
+    ctx.clause("C04.10 a member freed while the reader object lives on is reset before the function returns (no second free by the destructor)")
+    from ..rules import stalefield
+    nst = stalefield.check(ctx, P.funcs_under("src/reader/") + P.funcs_in("src/metadata/schema.c", "src/core/buffer.c"))
+    ctx.floor("C04 member frees outside destructors", nst, 20)
+
     # ---- (2) recursion, (3) ownership
     recursion.check(ctx, "R8", "recursion")
     rfns = P.funcs_under("src/reader/") + P.funcs_in("src/metadata/schema.c", PT, "src/thrift/thrift_decode.c", "src/core/arena.c")
